@@ -392,8 +392,12 @@ impl Pager {
                 ErrorKind::NotFound,
                 "Page not found on the cache",
             ))?;
+            #[cfg(feature = "verif")]
+            crate::verif::probe::on_alloc(true, true);
             page.reinit_as::<P::Header>()
         } else {
+            #[cfg(feature = "verif")]
+            crate::verif::probe::on_alloc(false, self.first_free_page().is_some());
             let id = self.get_next_page();
             let page = P::alloc(id, self.page_size() as usize);
 
@@ -504,6 +508,8 @@ impl Pager {
 
         // The new last free page must be the one we have deallocated.
         self.set_last_free_page(Some(id));
+        #[cfg(feature = "verif")]
+        crate::verif::probe::on_free();
 
         self.ensure_cached::<P>(id)?;
 
